@@ -218,6 +218,21 @@ func init() {
 			}
 			return mkInt64(int64(n))
 		},
+		"vObserve": func(m *Machine, fr *frame, fn *ssa.Function, args []Value) Value {
+			m.obsNames = append(m.obsNames, strArg(args[0]))
+			m.obsTerms = append(m.obsTerms, args[1].(*Term))
+			return nil
+		},
+		"vKnown": func(m *Machine, fr *frame, fn *ssa.Function, args []Value) Value {
+			id := strArg(args[0])
+			for _, k := range m.eng.cfg.Known {
+				if k == id {
+					return tTrue
+				}
+			}
+			return tFalse
+		},
+		"vNative": func(m *Machine, fr *frame, fn *ssa.Function, args []Value) Value { return tFalse },
 		"vPoisoned": func(m *Machine, fr *frame, fn *ssa.Function, args []Value) Value {
 			_, ok := m.ghost["poison"]
 			return mkBool(ok)
@@ -287,7 +302,7 @@ func registerTime() {
 		return tEq(args[0].(TimeV).ns, mkInt(zeroTimeNs))
 	}
 	I["(time.Time).UnixNano"] = func(m *Machine, fr *frame, fn *ssa.Function, args []Value) Value {
-		return tWrap(args[0].(TimeV).ns, 64, true)
+		return m.wrapInt(args[0].(TimeV).ns, 64, true)
 	}
 	I["(time.Time).Unix"] = func(m *Machine, fr *frame, fn *ssa.Function, args []Value) Value {
 		return tDivE(args[0].(TimeV).ns, mkInt64(1_000_000_000))
